@@ -17,7 +17,7 @@ Templates == BinT \cup {<<"neg", "a">>, <<"between", "a">>, <<"between", "lo">>,
    <<"if", "cond">>, <<"if", "then">>, <<"if", "else">>, <<"instof", "a">>, <<"path", "a">>,
    <<"filter", "a">>, <<"filter", "f">>, <<"invoke", "f">>, <<"invoke", "arg">>, <<"invoken", "arg">>,
    <<"for", "dom">>, <<"for", "lo">>, <<"for", "hi">>, <<"for", "body">>, <<"some", "dom">>, <<"some", "body">>,
-   <<"every", "dom">>, <<"every", "body">>, <<"fndef", "body">>, <<"list", "item">>, <<"ctx", "val">>, <<"elist", "item">>}
+   <<"every", "dom">>, <<"every", "body">>, <<"fndef", "body">>, <<"list", "item">>, <<"list", "first">>, <<"ctx", "val">>, <<"ctx", "first">>, <<"elist", "item">>}
 Ladder == BinT \cup {<<"neg", "a">>, <<"between", "a">>, <<"between", "hi">>, <<"instof", "a">>, <<"path", "a">>,
    <<"filter", "a">>, <<"invoke", "f">>}
 
@@ -39,8 +39,10 @@ Fill(tp, h) ==
     [] k \in {"some", "every"} -> IF p = "dom" THEN [n |-> k, its |-> <<[var |-> "i", kind |-> "single", a |-> h]>>, body |-> A]
                                                ELSE [n |-> k, its |-> <<[var |-> "i", kind |-> "single", a |-> X]>>, body |-> h]
     [] k = "fndef" -> [n |-> "fndef", ps |-> <<[p |-> "u", ty |-> [t |-> "Any"]], [p |-> "w", ty |-> TNum]>>, body |-> h]
-    [] k = "list" -> [n |-> "list", items |-> <<One, h>>]
-    [] k = "ctx" -> [n |-> "ctx", ents |-> <<[key |-> "k1", v |-> h], [key |-> "k2", v |-> Two]>>]
+    [] k = "list" -> IF p = "item" THEN [n |-> "list", items |-> <<One, h>>]
+                     ELSE [n |-> "list", items |-> <<h, [n |-> "sub", a |-> A, b |-> B]>>]        \* something after the hole that reads bound names
+    [] k = "ctx" -> IF p = "val" THEN [n |-> "ctx", ents |-> <<[key |-> "k1", v |-> h], [key |-> "k2", v |-> Two]>>]
+                    ELSE [n |-> "ctx", ents |-> <<[key |-> "k1", v |-> h], [key |-> "k2", v |-> [n |-> "sub", a |-> A, b |-> B]]>>]
     [] k = "elist" -> [n |-> "in", a |-> A, b |-> [n |-> "elist", items |-> <<h, Two>>]]
 
 \* innermost constructs
@@ -48,6 +50,7 @@ QN(id) == [n |-> "qname", segs |-> <<id>>]
 Inner == {Fill(tp, C) : tp \in {<<op, "a">> : op \in BinOps} \cup {<<"neg", "a">>, <<"between", "a">>, <<"if", "cond">>,
               <<"instof", "a">>, <<"path", "a">>, <<"filter", "a">>, <<"invoke", "arg">>, <<"invoken", "arg">>,
               <<"for", "body">>, <<"some", "body">>, <<"every", "body">>, <<"fndef", "body">>, <<"list", "item">>, <<"ctx", "val">>, <<"elist", "item">>}}
+         \cup {[n |-> "fndef", ps |-> <<>>, body |-> C], [n |-> "fndef", ps |-> <<>>, body |-> [n |-> "add", a |-> C, b |-> One]]}
          \cup {C, Num("1", "50"), Num("0", "5"), [n |-> "str", s |-> "s t"], [n |-> "bool", bv |-> TRUE], [n |-> "null"],
                [n |-> "at", s |-> "2021-01-01"],
                [n |-> "in", a |-> C, b |-> [n |-> "range", lo |-> One, lc |-> TRUE, hi |-> QN("b"), hc |-> FALSE]],
